@@ -543,9 +543,10 @@ Qed.
 
 Definition Inv (m : list resource) : Prop := Forall W m /\ distinct_ids m.
 
-(* the class: well-formed documents, no custom label fields, generators that create with good names,
-   comma-free namespace, prefixes and suffixes *)
+(* the class: well-formed documents, no custom label fields, no replicas / images entries, generators that create
+   with good names, comma-free namespace, prefixes and suffixes *)
 Definition dirs_wf (d : pdirs) : Prop :=
+  (pd_replicas d = [] /\ pd_images d = []) /\
   no_char ","%char (pd_ns d) = true /\ no_custom_fields d /\ gens_create d /\
   Forall gen_good (pd_cmgens d) /\ Forall gen_good (pd_secgens d) /\
   no_char ","%char (pd_prefix d) = true /\ no_char ","%char (pd_suffix d) = true.
@@ -579,7 +580,7 @@ Section Acc.
   Lemma run_generators_Inv d m m' :
     dirs_wf d -> Inv m -> run_generators nonstr d m = Ok m' -> Inv m'.
   Proof.
-    intros (_ & _ & [Hc1 Hc2] & Hg1 & Hg2 & _). unfold run_generators. generalize gen_generator_order. intros ks. revert m m'.
+    intros (_ & _ & _ & [Hc1 Hc2] & Hg1 & Hg2 & _). unfold run_generators. generalize gen_generator_order. intros ks. revert m m'.
     induction ks as [|k t IH]; intros m m' HI H; cbn [run_generator_kinds] in H; [inv H; exact HI|].
     match type of H with bind ?E _ = _ => destruct E as [mm| | |] eqn:E1 end; cbn [bind] in H; try discriminate.
     eapply IH; [|exact H].
@@ -590,7 +591,7 @@ Section Acc.
 
   Lemma run_kind_Inv k d m m' : dirs_wf d -> Inv m -> run_kind nonstr k d m = Ok m' -> Inv m'.
   Proof.
-    intros (Hns & Hn & _ & _ & _ & Hp & Hs) [HW Hd]. unfold run_kind.
+    intros ([Hrp Him] & Hns & Hn & _ & _ & _ & Hp & Hs) [HW Hd]. unfold run_kind. rewrite Hrp, Him.
     destruct (String.eqb k "NamespaceTransformer").
     { intros H. destruct (namespace_transform_W _ _ _ Hns HW Hd H) as [W' D']. split; auto. }
     destruct (String.eqb k "PrefixTransformer").
@@ -604,7 +605,8 @@ Section Acc.
     destruct (String.eqb k "AnnotationsTransformer").
     { intros H. destruct (label_transform_W nonstr _ _ _ _ common_annos_in_tbl HW H) as [W' S'].
       split; [exact W'|eapply Forall2_same_identity_ids; eauto]. }
-    intros H; inv H; split; assumption.
+    destruct (String.eqb k "ReplicaCountTransformer"); [cbn; intros H; inv H; split; assumption|].
+    destruct (String.eqb k "ImageTagTransformer"); cbn; intros H; inv H; split; assumption.
   Qed.
 
   Lemma run_order_Inv ks d : forall m m', dirs_wf d -> Inv m -> run_order nonstr ks d m = Ok m' -> Inv m'.
@@ -767,7 +769,7 @@ Section NoPanic.
 
   Lemma np_run_generators d m : dirs_wf d -> Inv m -> np (run_generators nonstr d m).
   Proof.
-    intros Hd. pose proof Hd as (_ & _ & [Hc1 Hc2] & Hg1 & Hg2 & _).
+    intros Hd. pose proof Hd as (_ & _ & _ & [Hc1 Hc2] & Hg1 & Hg2 & _).
     unfold run_generators. generalize gen_generator_order. intros ks. revert m.
     induction ks as [|k t IH]; intros m HI; cbn [run_generator_kinds]; [discriminate|].
     apply np_bind.
@@ -825,7 +827,7 @@ Section NoPanic.
 
   Lemma np_run_kind k d m : dirs_wf d -> Inv m -> np (run_kind nonstr k d m).
   Proof.
-    intros (Hns & _) [HW _]. unfold run_kind.
+    intros ([Hrp Him] & Hns & _) [HW _]. unfold run_kind. rewrite Hrp, Him.
     destruct (String.eqb k "NamespaceTransformer").
     { unfold namespace_transform. destruct (String.eqb _ ""); [discriminate|apply np_ns_loop]. }
     destruct (String.eqb k "PrefixTransformer").
@@ -838,7 +840,9 @@ Section NoPanic.
       destruct (should_skip _ org); [discriminate|apply np_affix_steps]. }
     destruct (String.eqb k "LabelTransformer").
     { apply np_bind; [apply np_label_transformers|]. intros; apply np_label_transforms. }
-    destruct (String.eqb k "AnnotationsTransformer"); [apply np_label_transform|discriminate].
+    destruct (String.eqb k "AnnotationsTransformer"); [apply np_label_transform|].
+    destruct (String.eqb k "ReplicaCountTransformer"); [cbn; discriminate|].
+    destruct (String.eqb k "ImageTagTransformer"); cbn; discriminate.
   Qed.
 
   Lemma np_run_order ks d : forall m, dirs_wf d -> Inv m -> np (run_order nonstr ks d m).
@@ -1097,7 +1101,7 @@ Definition clash_tree : ptree :=
 
 Ltac solve_creates := first [left; vm_compute; reflexivity | right; vm_compute; reflexivity].
 Ltac solve_dirs_wf :=
-  unfold dirs_wf, no_custom_fields, gens_create; cbn [pd_ns pd_prefix pd_suffix pd_labels pd_cmgens pd_secgens mkPDirs];
+  unfold dirs_wf, no_custom_fields, gens_create; cbn [pd_ns pd_prefix pd_suffix pd_labels pd_cmgens pd_secgens pd_replicas pd_images mkPDirs mkPDirsG];
   repeat match goal with
          | |- _ /\ _ => split
          | |- Forall _ [] => constructor
@@ -1105,6 +1109,7 @@ Ltac solve_dirs_wf :=
          | |- creates _ => solve_creates
          | |- gen_good _ => split; reflexivity
          | |- _ = true => reflexivity
+         | |- _ = [] => reflexivity
          end.
 Ltac solve_wf_node := eexists _, _, _, _, _, _; repeat split; try reflexivity; discriminate.
 
